@@ -11,7 +11,10 @@
       begin block that follows height + interval, then fulfilled (plain), or handed to the
       service (oracle) and fulfilled when the seed arrives / dropped when the service reports
       failure; once fulfilled or dropped nothing ever changes under its id. *)
-From Irismod Require Import Random.Model.
+From Irismod Require Import Random.Model Random.Spec.
+
+(** lemmas proved inside sections depend exactly on the section variables their statements mention *)
+Set Default Proof Using "Type".
 
 (** ** association lists *)
 Section MapFacts.
@@ -178,25 +181,17 @@ Qed.
 Section Track.
   Variable sha : hin -> Z.
 
-  (** a request message succeeds iff it is well-formed and, for an oracle request, the service
-      module created a request context: a function of the step alone *)
-  Definition req_ok (c : Z) (capok orc : bool) (svc : option Z) : bool :=
-    msg_ok c capok && (negb orc || match svc with Some _ => true | None => false end).
-
-  Definition new_req (s : state) (c txh : Z) (orc : bool) (svc : option Z) : request :=
-    mkReq (height s) c txh orc (if orc then match svc with Some x => x | None => -1 end else -1).
-
-  Definition enq (s : state) (n : Z) (r : request) : state :=
-    mkState (height s) (time s) (apph s) (set (due_key (height s) n, req_id r) r (queue s))
-            (results s) (oracle s).
-
   Lemma exec_req s c n orc capok txh svc :
     exec_step sha s (Req c n orc capok txh svc) =
-    if req_ok c capok orc svc then (Ok, enq s n (new_req s c txh orc svc), []) else (Rej, s, []).
+    if req_ok c capok orc svc then
+      (if interval_ok (height s) n then (Ok, enq s n (new_req s c txh orc svc), []) else (Rej, s, []))
+    else (Rej, s, []).
   Proof.
     unfold exec_step, req_ok, request_random, enq, new_req.
     destruct (msg_ok c capok); simpl; [|reflexivity].
-    destruct orc; simpl; [|reflexivity]. destruct svc; reflexivity.
+    destruct (interval_ok (height s) n); simpl.
+    - destruct orc; simpl; [|reflexivity]. destruct svc; reflexivity.
+    - destruct orc; simpl; [|reflexivity]. destruct svc; reflexivity.
   Qed.
 
   (** *** begin block in closed form *)
@@ -305,12 +300,16 @@ Section Track.
     reflexivity.
   Qed.
 
-  (** *** histories in which no block has time 0 and no requester asks twice in one block *)
+  (** *** histories in which no block has time 0 and none of the requesters in [P] asks twice in
+      one block ([used] = the requesters of the current block so far) *)
+  Variable P : Z -> bool.
+
   Fixpoint sane (used : list Z) (steps : list step) : Prop :=
     match steps with
     | [] => True
     | Req c n orc capok txh svc :: rest =>
-        if req_ok c capok orc svc then ~ In c used /\ sane (c :: used) rest else sane used rest
+        if req_ok c capok orc svc then (P c = true -> ~ In c used) /\ sane (c :: used) rest
+        else sane used rest
     | Begin t a started :: rest => t <> 0 /\ sane [] rest
     | Calls cs :: rest => sane used rest
     end.
@@ -353,7 +352,7 @@ Section Track.
     /\ (forall e, In e (oracle (calls_state s cs)) -> In e (oracle s))
     /\ (forall id v, In (id, v) (results (calls_state s cs)) ->
           In (id, v) (results s) \/ exists x r, In (x, r) (oracle s) /\ id = req_id r).
-  Proof.
+  Proof. clear P.
     induction cs as [|cl cs IH]; intros s; simpl.
     - repeat split; auto.
     - destruct (IH (call_state s cl)) as (Hh & Ht & Ha & Hq & Ho & Hr).
@@ -390,10 +389,14 @@ Section Track.
     intros [Hh Ht Hq Ho Hr] Hs. unfold step_state, used_step.
     destruct st as [c n orc capok txh svc|t a started|cs]; simpl in Hs; cbn [used_after].
     - revert Hs. rewrite exec_req. destruct (req_ok c capok orc svc) eqn:Hok; intros Hs; simpl.
-      + destruct Hs as [Hnew _]. constructor; simpl; auto.
-        intros k r Hin. apply in_set_inv in Hin. destruct Hin as [He|Hin].
-        * inversion He; subst k r. simpl. repeat split; [lia|]. intros _. left. reflexivity.
-        * destruct (Hq _ _ Hin) as (H1 & H2 & H3). repeat split; auto;
+      + destruct Hs as [Hnew _]. destruct (interval_ok (height s) n); simpl.
+        * constructor; simpl; auto.
+          intros k r Hin. apply in_set_inv in Hin. destruct Hin as [He|Hin].
+          -- inversion He; subst k r. simpl. repeat split; [lia|]. intros _. left. reflexivity.
+          -- destruct (Hq _ _ Hin) as (H1 & H2 & H3). repeat split; auto;
+             intros Heq; right; auto.
+        * constructor; auto.
+          intros k r Hin. destruct (Hq _ _ Hin) as (H1 & H2 & H3). repeat split; auto;
           intros Heq; right; auto.
       + constructor; auto.
     - destruct Hs as [Htz _]. unfold exec_step. rewrite (begin_block_nz s t a started Htz). simpl.
@@ -457,7 +460,7 @@ Section Track.
     intros Hb Hs. pose proof (Base_step used s st Hb Hs) as Hb'.
     unfold step_events, step_state in *.
     destruct st as [c n orc capok txh svc|t a started|cs]; simpl in Hs.
-    - rewrite exec_req. destruct (req_ok c capok orc svc); simpl; tauto.
+    - rewrite exec_req. destruct (req_ok c capok orc svc); [destruct (interval_ok (height s) n)|]; simpl; tauto.
     - destruct Hs as [Htz _]. unfold exec_step. rewrite (begin_block_nz s t a started Htz). simpl.
       intros Hin. split; [|exact Htz]. apply in_flat_map in Hin. destruct Hin as (e & _ & Hev).
       unfold fev in Hev. destruct (q_oracle (snd e)); [contradiction|].
@@ -501,40 +504,6 @@ Section Track.
   Let c : Z := q_consumer r0.
   Let ctx : Z := q_ctx r0.
 
-  Inductive phase :=
-  | Pending                 (* in the queue under the due height [d] *)
-  | Started                 (* oracle: handed to the service, waiting for the seed *)
-  | Fulfilled (ev : event)  (* the result was written by this fulfilment *)
-  | Dropped.                (* oracle: the service failed; no result, nothing pending *)
-
-  Definition spec_call (hh tt aa : Z) (ph : phase) (cl : call) : phase :=
-    match ph with
-    | Started =>
-        match cl with
-        | CallResp x dta =>
-            if x =? ctx then
-              match dta with
-              | CbSeed seed => Fulfilled (mkEv hh tt aa i (q_txh r0) (Some seed) (rand_val sha tt aa c (Some seed)))
-              | CbBadBody => Started
-              | _ => Dropped
-              end
-            else Started
-        | CallState x ex => if (x =? ctx) && ex then Dropped else Started
-        end
-    | _ => ph
-    end.
-
-  Definition spec_step (s : state) (ph : phase) (st : step) : phase :=
-    match ph, st with
-    | Pending, Begin t a started =>
-        if height s =? d then
-          if q_oracle r0 then (if existsb (Z.eqb ctx) started then Started else Dropped)
-          else Fulfilled (mkEv (d + 1) t a i (q_txh r0) None (rand_val sha t a c None))
-        else Pending
-    | Started, Calls cs => fold_left (spec_call (height s) (time s) (apph s)) cs Started
-    | _, _ => ph
-    end.
-
   (** the fulfilments of the tracked request produced by a phase change *)
   Definition new_events (ph ph' : phase) : list event :=
     match ph, ph' with
@@ -545,8 +514,6 @@ Section Track.
 
   Definition is_i (ev : event) : bool := eqb (e_rid ev) i.
   Definition key_i (e : (Z * rid) * request) : bool := eqb (snd (fst e)) i.
-
-  Definition result_of (ev : event) : result := (e_txh ev, e_block ev - 1, e_val ev).
 
   (** how the phase shows in the state *)
   Definition R (used : list Z) (ph : phase) (s : state) : Prop :=
@@ -643,9 +610,9 @@ Section Track.
 
   (** one callback *)
   Lemma R_call used s cl ph : Base used s -> R used ph s ->
-    R used (spec_call (height s) (time s) (apph s) ph cl) (call_state s cl)
-    /\ filter is_i (call_events s cl) = new_events ph (spec_call (height s) (time s) (apph s) ph cl).
-  Proof.
+    R used (spec_call sha r0 (height s) (time s) (apph s) ph cl) (call_state s cl)
+    /\ filter is_i (call_events s cl) = new_events ph (spec_call sha r0 (height s) (time s) (apph s) ph cl).
+  Proof. clear P.
     intros Hb HR.
     destruct (call_state_header s cl) as (Hh & Ht & Ha & Hq).
     (* facts common to all phases: the oracle shrinks, results change only at ids of oracle entries *)
@@ -674,7 +641,7 @@ Section Track.
       { intros y r Hin Hid. apply in_del_inv in Hin. destruct Hin as [Hin Hne].
         apply Hne. simpl. apply (H5 y r Hin Hid). }
       destruct cl as [x dta|x ex]; simpl.
-      + destruct (Z.eqb_spec x ctx) as [->|Hne].
+      + fold ctx; destruct (Z.eqb_spec x ctx) as [->|Hne].
         * destruct dta; simpl; rewrite ?H4; simpl.
           -- split; [|reflexivity]. repeat split; auto.
           -- split; [|reflexivity]. repeat split; auto.
@@ -691,7 +658,7 @@ Section Track.
              unfold is_i. simpl. replace (eqb (req_id r) i) with false; [reflexivity|].
              symmetry. apply eqb_false_iff. exact Hrid.
           -- split; [repeat split; auto|reflexivity].
-      + destruct (Z.eqb_spec x ctx) as [->|Hne]; simpl.
+      + fold ctx; destruct (Z.eqb_spec x ctx) as [->|Hne]; simpl.
         * destruct ex; simpl; (split; [repeat split; auto|reflexivity]).
         * destruct (Hdel_other x Hne) as [Hg Hu].
           destruct ex; simpl; (split; [repeat split; auto|reflexivity]).
@@ -711,10 +678,10 @@ Section Track.
 
   (** phases only move forward: a fulfilled or dropped request stays so *)
   Lemma spec_calls_stable hh tt aa cs ph :
-    ph <> Started -> fold_left (spec_call hh tt aa) cs ph = ph.
+    ph <> Started -> fold_left (spec_call sha r0 hh tt aa) cs ph = ph.
   Proof.
     intros Hne. induction cs as [|cl cs IH]; simpl; [reflexivity|].
-    replace (spec_call hh tt aa ph cl) with ph; [exact IH|].
+    replace (spec_call sha r0 hh tt aa ph cl) with ph; [exact IH|].
     destruct ph; try reflexivity. contradiction.
   Qed.
 
@@ -732,15 +699,20 @@ Section Track.
 
   Lemma Base_call used s cl : Base used s -> Base used (call_state s cl).
   Proof.
-    intros Hb. pose proof (Base_step used s (Calls [cl]) Hb I) as Hb'.
-    unfold step_state, used_step, exec_step in Hb'. simpl used_after in Hb'.
-    rewrite (exec_calls_nz [cl] s (b_t _ _ Hb)) in Hb'. exact Hb'.
+    intros [Hh Ht Hq Ho Hr].
+    destruct (calls_state_sub [cl] s) as (Hh' & Ht' & Ha' & Hq' & Ho' & Hr'). simpl in *.
+    constructor; try congruence.
+    - rewrite Hq', Hh'. exact Hq.
+    - rewrite Hh'. intros x r Hin. apply (Ho x r), Ho', Hin.
+    - rewrite Hh'. intros id v Hin. destruct (Hr' _ _ Hin) as [Hin'|(x & r & Hx & Hid)].
+      + apply (Hr _ _ Hin').
+      + subst id. simpl. apply (Ho x r Hx).
   Qed.
 
   Lemma R_calls used cs : forall s ph, Base used s -> R used ph s ->
-    R used (fold_left (spec_call (height s) (time s) (apph s)) cs ph) (calls_state s cs)
+    R used (fold_left (spec_call sha r0 (height s) (time s) (apph s)) cs ph) (calls_state s cs)
     /\ filter is_i (calls_events s cs)
-       = new_events ph (fold_left (spec_call (height s) (time s) (apph s)) cs ph).
+       = new_events ph (fold_left (spec_call sha r0 (height s) (time s) (apph s)) cs ph).
   Proof.
     induction cs as [|cl cs IH]; intros s ph Hb HR.
     - simpl. split; [exact HR|]. destruct ph; reflexivity.
@@ -777,7 +749,7 @@ Section Track.
     /\ (forall x r, In (x, r) (fold_left (fset (pO started) kO vO) due (oracle s)) ->
           In (x, r) (oracle s) \/ (req_id r <> i /\ x = q_ctx r /\ q_oracle r = true /\ exists k, In (k, r) due))
     /\ filter is_i (flat_map (fev t a last) due) = [].
-  Proof.
+  Proof. clear d P.
     intros Hb Hnil. cbv zeta.
     set (due := filter (is_due (height s)) (queue s)).
     assert (Hk : forall k r, In (k, r) (queue s) -> snd k = req_id r).
@@ -795,22 +767,26 @@ Section Track.
       + intros k r Hin. apply Hk. apply in_filter_queue in Hin. exact Hin.
   Qed.
 
-  Lemma R_step used s ph st : 0 <= d < two64 ->
+  Lemma R_step used s ph st : 0 <= d < two64 -> P c = true ->
     Base used s -> R used ph s -> sane used [st] -> (q_oracle r0 = true -> ctx_unused [st]) ->
-    R (used_step used st) (spec_step s ph st) (step_state sha s st)
-    /\ filter is_i (step_events sha s st) = new_events ph (spec_step s ph st).
+    R (used_step used st) (spec_step sha r0 d s ph st) (step_state sha s st)
+    /\ filter is_i (step_events sha s st) = new_events ph (spec_step sha r0 d s ph st).
   Proof.
-    intros Hd Hb HR Hs Hc.
+    intros Hd HP Hb HR Hs Hc.
     assert (Hk : forall k r, In (k, r) (queue s) -> snd k = req_id r).
     { intros k r Hin. apply (b_q _ _ Hb k r Hin). }
     unfold step_state, step_events, used_step.
     destruct st as [c' n orc capok txh svc|t a started|cs].
     - (* a request: the phase does not change *)
-      assert (Hph : spec_step s ph (Req c' n orc capok txh svc) = ph) by (destruct ph; reflexivity).
+      assert (Hph : spec_step sha r0 d s ph (Req c' n orc capok txh svc) = ph) by (destruct ph; reflexivity).
       rewrite Hph. rewrite exec_req. cbn [used_after]. simpl in Hs.
       destruct (req_ok c' capok orc svc) eqn:Hok; simpl;
         [|split; [exact HR|destruct ph; reflexivity]].
       destruct Hs as [Hnew _].
+      destruct (interval_ok (height s) n); simpl;
+        [|split; [|destruct ph; reflexivity];
+          destruct ph; simpl in HR |- *; try exact HR;
+          destruct HR as (H1 & H2 & H3); split; [exact H1|]; split; [intros Heq; right; auto|exact H3]].
       split; [|destruct ph; reflexivity].
       set (r' := new_req s c' txh orc svc).
       assert (Hctx' : q_oracle r0 = true -> q_oracle r' = true -> q_ctx r' <> ctx).
@@ -824,7 +800,7 @@ Section Track.
       + destruct HR as (H1 & H2 & H3 & H4 & H5 & H6).
         assert (Hne : snd (due_key (height s) n, req_id r') <> i).
         { apply Hkey. destruct (Z.eq_dec (height s) h) as [Heq|Hneq]; [right|left; exact Hneq].
-          intros ->. apply Hnew. apply H2. exact Heq. }
+          intros ->. apply Hnew; [exact HP|apply H2; exact Heq]. }
         split; [exact H1|]. split; [intros Heq; right; apply H2; exact Heq|].
         split; [rewrite key_i_set by exact Hne; exact H3|]. split; [exact H4|]. split; [exact H5|].
         intros Ho. destruct (H6 Ho) as [Hq6 Hg6]. split; [|exact Hg6].
@@ -880,7 +856,7 @@ Section Track.
                rewrite (Hone e He Hid) in Hp. unfold pR in Hp. simpl in Hp. rewrite Hor0 in Hp. discriminate. }
              assert (Hevs0 : filter is_i (flat_map (fev t a (height s)) (filter (is_due (height s)) (queue s))) = []).
              { rewrite Hevs. unfold fev. simpl. rewrite Hor0. reflexivity. }
-             destruct (existsb (Z.eqb ctx) started) eqn:Hst.
+             fold ctx; destruct (existsb (Z.eqb ctx) started) eqn:Hst.
              ++ (* handed to the service *)
                 split; [|exact Hevs0]. cbn [R height queue oracle results].
                 split; [lia|]. split; [exact Hor0|]. split; [exact Hqueue|].
@@ -970,47 +946,41 @@ Section Track.
     - (* callbacks *)
       unfold exec_step. rewrite (exec_calls_nz cs s (b_t _ _ Hb)). cbn [used_after fst snd].
       destruct (R_calls used cs s ph Hb HR) as [HR' Hev'].
-      assert (Hph : spec_step s ph (Calls cs) = fold_left (spec_call (height s) (time s) (apph s)) cs ph).
+      assert (Hph : spec_step sha r0 d s ph (Calls cs) = fold_left (spec_call sha r0 (height s) (time s) (apph s)) cs ph).
       { destruct ph; cbn [spec_step]; try reflexivity; symmetry; apply spec_calls_stable; discriminate. }
       rewrite Hph. split; assumption.
   Qed.
 
   (** *** whole histories *)
-  Fixpoint spec_run (s : state) (ph : phase) (steps : list step) : phase :=
-    match steps with
-    | [] => ph
-    | st :: rest => spec_run (step_state sha s st) (spec_step s ph st) rest
-    end.
-
-  Lemma spec_step_fulfilled s ev st : spec_step s (Fulfilled ev) st = Fulfilled ev.
+  Lemma spec_step_fulfilled s ev st : spec_step sha r0 d s (Fulfilled ev) st = Fulfilled ev.
   Proof. destruct st; reflexivity. Qed.
 
-  Lemma spec_run_fulfilled steps : forall s ev, spec_run s (Fulfilled ev) steps = Fulfilled ev.
+  Lemma spec_run_fulfilled steps : forall s ev, spec_run sha r0 d s (Fulfilled ev) steps = Fulfilled ev.
   Proof.
     induction steps as [|st steps IH]; intros s ev; cbn [spec_run]; [reflexivity|].
     rewrite spec_step_fulfilled. apply IH.
   Qed.
 
   Lemma ctx_unused_cons st rest : ctx_unused (st :: rest) <-> ctx_unused [st] /\ ctx_unused rest.
-  Proof. destruct st; simpl; tauto. Qed.
+  Proof. clear d P. destruct st; simpl; tauto. Qed.
 
   Lemma ctx_unused_app a b : ctx_unused (a ++ b) <-> ctx_unused a /\ ctx_unused b.
-  Proof.
+  Proof. clear d P.
     induction a as [|st a IH]; simpl; [tauto|].
     destruct st; simpl; rewrite ?IH; tauto.
   Qed.
 
-  Lemma track_run : 0 <= d < two64 -> forall steps used s ph,
+  Lemma track_run : 0 <= d < two64 -> P c = true -> forall steps used s ph,
     Base used s -> R used ph s -> sane used steps -> (q_oracle r0 = true -> ctx_unused steps) ->
-    R (used_after used steps) (spec_run s ph steps) (run sha s steps)
-    /\ filter is_i (events sha s steps) = new_events ph (spec_run s ph steps).
+    R (used_after used steps) (spec_run sha r0 d s ph steps) (run sha s steps)
+    /\ filter is_i (events sha s steps) = new_events ph (spec_run sha r0 d s ph steps).
   Proof.
-    intros Hd. induction steps as [|st steps IH]; intros used s ph Hb HR Hs Hc.
+    intros Hd HP. induction steps as [|st steps IH]; intros used s ph Hb HR Hs Hc.
     - simpl. split; [exact HR|]. destruct ph; reflexivity.
     - apply sane_cons in Hs. destruct Hs as [Hs1 Hs2].
       assert (Hc1 : q_oracle r0 = true -> ctx_unused [st]) by (intros Ho; apply (ctx_unused_cons st steps); auto).
       assert (Hc2 : q_oracle r0 = true -> ctx_unused steps) by (intros Ho; apply (ctx_unused_cons st steps); auto).
-      destruct (R_step used s ph st Hd Hb HR Hs1 Hc1) as [HR1 He1].
+      destruct (R_step used s ph st Hd HP Hb HR Hs1 Hc1) as [HR1 He1].
       destruct (IH _ _ _ (Base_step used s st Hb Hs1) HR1 Hs2 Hc2) as [HR2 He2].
       replace (used_after used (st :: steps)) with (used_after (used_step used st) steps)
         by (destruct st; reflexivity).
@@ -1021,7 +991,7 @@ Section Track.
   Qed.
 
   (** *** where tracking starts: the state right after the request was accepted *)
-  Lemma track_start : 0 <= d < two64 -> forall used s c' n orc capok txh svc,
+  Lemma track_start : 0 <= d < two64 -> P c = true -> forall used s c' n orc capok txh svc,
     Base used s -> sane used [Req c' n orc capok txh svc] -> req_ok c' capok orc svc = true ->
     r0 = new_req s c' txh orc svc -> 0 <= n -> d = height s + n ->
     (q_oracle r0 = true ->
@@ -1029,7 +999,7 @@ Section Track.
        /\ (forall y r, In (y, r) (oracle s) -> y <> ctx)) ->
     R (c' :: used) Pending (enq s n r0).
   Proof.
-    intros Hd used s c' n orc capok txh svc Hb Hs Hok Hr0 Hn Hdd Hfresh. simpl in Hs. rewrite Hok in Hs. destruct Hs as [Hnew _].
+    intros Hd HP used s c' n orc capok txh svc Hb Hs Hok Hr0 Hn Hdd Hfresh. simpl in Hs. rewrite Hok in Hs. destruct Hs as [Hnew _].
     assert (Hh : h = height s) by (unfold h; rewrite Hr0; reflexivity).
     assert (Hcc : c = c') by (unfold c; rewrite Hr0; reflexivity).
     assert (Hi : i = (height s, c')) by (unfold i; rewrite Hr0; reflexivity).
@@ -1042,7 +1012,7 @@ Section Track.
       unfold key_i. simpl. apply eqb_false_iff. intros Hki.
       destruct (b_q _ _ Hb k r Hin) as (Hkr & _ & Hu).
       rewrite Hkr, Hi in Hki. unfold req_id in Hki. inversion Hki as [[Hqh Hqc]].
-      apply Hnew. rewrite <- Hqc. apply Hu. exact Hqh.
+      apply Hnew; [rewrite <- Hcc; exact HP|]. rewrite <- Hqc. apply Hu. exact Hqh.
     - intros x r Hin Hid. pose proof (b_o _ _ Hb x r Hin) as Hlt.
       rewrite Hi in Hid. unfold req_id in Hid. inversion Hid. lia.
     - destruct (get i (results s)) as [v|] eqn:Hg; [|reflexivity].
@@ -1060,10 +1030,11 @@ Section Track.
     /\ (forall y r, In (y, r) (oracle s) -> y <> ctx).
 
   Lemma CF_step used s st : Base used s -> sane used [st] -> ctx_unused [st] -> CF s -> CF (step_state sha s st).
-  Proof.
+  Proof. clear d.
     intros Hb Hs Hc [Hq Ho]. unfold step_state.
     destruct st as [c' n orc capok txh svc|t a started|cs].
     - rewrite exec_req. destruct (req_ok c' capok orc svc) eqn:Hok; simpl; [|split; assumption].
+      destruct (interval_ok (height s) n); simpl; [|split; assumption].
       split; [|exact Ho]. intros k r Hin Hor. apply in_set_inv in Hin. destruct Hin as [He|Hin]; [|apply (Hq k r Hin Hor)].
       inversion He; subst k r. unfold new_req in Hor |- *. simpl in Hor |- *. subst orc.
       destruct Hc as [Hsvc _]. specialize (Hsvc eq_refl).
@@ -1100,7 +1071,7 @@ Section Track.
 
   Lemma spec_run_plain : q_oracle r0 = false -> forall steps used s,
     sane used steps -> height s <= d ->
-    spec_run s Pending steps =
+    spec_run sha r0 d s Pending steps =
     match nth_begin (Z.to_nat (d - height s)) steps with
     | Some (t, a) => Fulfilled (mkEv (d + 1) t a i (q_txh r0) None (rand_val sha t a c None))
     | None => Pending
@@ -1109,8 +1080,10 @@ Section Track.
     intros Hor. induction steps as [|st steps IH]; intros used s Hs Hle; [reflexivity|].
     apply sane_cons in Hs. destruct Hs as [Hs1 Hs2].
     destruct st as [c' n orc capok txh svc|t a started|cs]; cbn [spec_run spec_step nth_begin].
-    - rewrite (IH _ _ Hs2); unfold step_state; rewrite exec_req;
-        destruct (req_ok c' capok orc svc); simpl; auto.
+    - assert (Hhs : height (step_state sha s (Req c' n orc capok txh svc)) = height s).
+      { unfold step_state. rewrite exec_req.
+        destruct (req_ok c' capok orc svc); [destruct (interval_ok (height s) n)|]; reflexivity. }
+      rewrite (IH _ _ Hs2) by (rewrite Hhs; exact Hle). rewrite Hhs. reflexivity.
     - destruct Hs1 as [Htz _].
       assert (Hh' : height (step_state sha s (Begin t a started)) = height s + 1).
       { unfold step_state, exec_step. rewrite (begin_block_nz s t a started Htz). reflexivity. }
@@ -1142,6 +1115,8 @@ End Track.
 (** ** histories from the initial state *)
 Section Top.
   Variable sha : hin -> Z.
+  Variable P : Z -> bool.
+  Notation sane := (sane P).
 
   Lemma run_app a : forall s b, run sha s (a ++ b) = run sha (run sha s a) b.
   Proof. induction a as [|st a IH]; intros s b; simpl; [reflexivity|apply IH]. Qed.
@@ -1167,7 +1142,7 @@ Section Top.
     height s <= height (step_state sha s st).
   Proof.
     intros Hb Hs. unfold step_state. destruct st as [c n orc capok txh svc|t a started|cs].
-    - rewrite exec_req. destruct (req_ok c capok orc svc); simpl; lia.
+    - rewrite exec_req. destruct (req_ok c capok orc svc); [destruct (interval_ok (height s) n)|]; simpl; lia.
     - destruct Hs as [Htz _]. unfold exec_step. rewrite (begin_block_nz sha s t a started Htz). simpl. lia.
     - unfold exec_step. rewrite (exec_calls_nz sha cs s (b_t _ _ Hb)). simpl.
       destruct (calls_state_sub sha cs s) as (Hh & _). lia.
@@ -1179,7 +1154,7 @@ Section Top.
     induction steps as [|st steps IH]; intros used s Hb Hs; simpl; [lia|].
     apply sane_cons in Hs. destruct Hs as [Hs1 Hs2].
     pose proof (step_height used s st Hb Hs1).
-    pose proof (IH _ _ (Base_step sha used s st Hb Hs1) Hs2). lia.
+    pose proof (IH _ _ (Base_step sha P used s st Hb Hs1) Hs2). lia.
   Qed.
 
   Lemma calls_events_src cs : forall s ev, In ev (calls_events sha s cs) ->
@@ -1201,7 +1176,7 @@ Section Top.
   Proof.
     intros Hb Hs. unfold step_events, step_state.
     destruct st as [c n orc capok txh svc|t a started|cs].
-    - rewrite exec_req. destruct (req_ok c capok orc svc); simpl; tauto.
+    - rewrite exec_req. destruct (req_ok c capok orc svc); [destruct (interval_ok (height s) n)|]; simpl; tauto.
     - destruct Hs as [Htz _]. unfold exec_step. rewrite (begin_block_nz sha s t a started Htz). simpl.
       intros Hin. apply in_flat_map in Hin. destruct Hin as ([k r] & He & Hev).
       unfold fev in Hev. simpl in Hev. destruct (q_oracle r); [contradiction|].
@@ -1218,7 +1193,7 @@ Section Top.
   Proof.
     induction steps as [|st steps IH]; intros used s ev Hb Hs; simpl; [tauto|].
     apply sane_cons in Hs. destruct Hs as [Hs1 Hs2].
-    pose proof (Base_step sha used s st Hb Hs1) as Hb1.
+    pose proof (Base_step sha P used s st Hb Hs1) as Hb1.
     rewrite in_app_iff. intros [Hin|Hin].
     - pose proof (step_events_old used s st ev Hb Hs1 Hin).
       pose proof (run_height steps _ _ Hb1 Hs2). lia.
@@ -1234,9 +1209,60 @@ Section Top.
     induction steps as [|st steps IH]; intros used s ev Hb Hs; simpl; [tauto|].
     apply sane_cons in Hs. destruct Hs as [Hs1 Hs2].
     rewrite in_app_iff. intros [Hin|Hin].
-    - destruct (step_events_ok sha used s st ev Hb Hs1 Hin) as [(Hb' & Ht' & Ha' & Hv) Hnz].
+    - destruct (step_events_ok sha P used s st ev Hb Hs1 Hin) as [(Hb' & Ht' & Ha' & Hv) Hnz].
       rewrite Ht', Ha'. split; [exact Hnz|exact Hv].
-    - apply (IH _ _ _ (Base_step sha used s st Hb Hs1) Hs2 Hin).
+    - apply (IH _ _ _ (Base_step sha P used s st Hb Hs1) Hs2 Hin).
+  Qed.
+
+
+  (** every result stored in a reachable state is in range *)
+  Definition RInv (s : state) : Prop :=
+    forall id txh hh x, In (id, (txh, hh, x)) (results s) -> 0 <= x < precision.
+
+  Lemma RInv_call s cl : RInv s -> RInv (call_state sha s cl).
+  Proof.
+    intros Hr. destruct cl as [y dta|y ex]; simpl.
+    - destruct dta; simpl; auto.
+      destruct (get y (oracle s)) as [r|]; simpl; auto.
+      intros id txh hh x Hin. apply in_set_inv in Hin. destruct Hin as [He|Hin]; [|apply (Hr _ _ _ _ Hin)].
+      inversion He. apply rand_val_range.
+    - destruct ex; simpl; auto.
+  Qed.
+
+  Lemma RInv_calls cs : forall s, RInv s -> RInv (calls_state sha s cs).
+  Proof.
+    induction cs as [|cl cs IH]; intros s Hr; simpl; [exact Hr|].
+    apply IH. apply RInv_call. exact Hr.
+  Qed.
+
+  Lemma RInv_step used s st : Base used s -> sane used [st] -> RInv s -> RInv (step_state sha s st).
+  Proof.
+    intros Hb Hs Hr. unfold step_state. destruct st as [c n orc capok txh svc|t a started|cs].
+    - rewrite exec_req. destruct (req_ok c capok orc svc); [destruct (interval_ok (height s) n)|]; simpl; exact Hr.
+    - destruct Hs as [Htz _]. unfold exec_step. rewrite (begin_block_nz sha s t a started Htz). simpl.
+      intros id txh hh x Hin. apply fset_in in Hin. destruct Hin as [Hin|(e & _ & _ & Hx)]; [apply (Hr _ _ _ _ Hin)|].
+      inversion Hx. apply rand_val_range.
+    - unfold exec_step. rewrite (exec_calls_nz sha cs s (b_t _ _ Hb)). simpl. apply RInv_calls. exact Hr.
+  Qed.
+
+  Lemma RInv_run steps : forall used s, Base used s -> sane used steps -> RInv s -> RInv (run sha s steps).
+  Proof.
+    induction steps as [|st steps IH]; intros used s Hb Hs Hr; [exact Hr|].
+    apply sane_cons in Hs. destruct Hs as [Hs1 Hs2]. simpl.
+    apply (IH (used_step used st)); [apply (Base_step sha P); assumption|exact Hs2|].
+    apply (RInv_step used); assumption.
+  Qed.
+
+  Lemma stored_results_lemma steps id txh hh x :
+    sane [] steps -> query_random (run sha init steps) id = Some (txh, hh, x) ->
+    0 <= x < precision
+    /\ exists ds, render x = 48 :: 46 :: ds /\ length ds = 20%nat
+                  /\ Forall (fun ch => 48 <= ch <= 57) ds /\ undigits ds 0 = x.
+  Proof.
+    intros Hs Hq. unfold query_random in Hq. apply get_In in Hq.
+    assert (Hx : 0 <= x < precision).
+    { apply (RInv_run steps [] init Base_init Hs) with id txh hh; [|exact Hq]. intros ? ? ? ? []. }
+    split; [exact Hx|apply render_value; exact Hx].
   Qed.
 
   (** *** the life of an arbitrary request in an arbitrary history *)
@@ -1249,16 +1275,17 @@ Section Top.
     Let steps := pre ++ Req c n orc capok txh svc :: post.
 
     Hypothesis Hsane : sane [] steps.
+    Hypothesis HP : P c = true.
     Hypothesis Hok : req_ok c capok orc svc = true.
     Hypothesis Hn : 0 <= n.
-    Hypothesis Hd : d < two64.
+    Hypothesis Hd : d < two63.
     Hypothesis Hctx : orc = true -> ctx_unused r0 (pre ++ post).
 
     Lemma life_lemma :
       let ph := spec_run sha r0 d s1 Pending post in
       R r0 d (used_after [] steps) ph (run sha init steps)
       /\ filter (is_i r0) (events sha init steps) = new_events Pending ph.
-    Proof.
+    Proof using All.
       intros ph.
       unfold steps in Hsane. apply sane_app in Hsane. destruct Hsane as [Hs_pre Hs_rest].
       apply sane_cons in Hs_rest. destruct Hs_rest as [Hs_req Hs_post].
@@ -1266,31 +1293,34 @@ Section Top.
       assert (Hu : used_step used1 (Req c n orc capok txh svc) = c :: used1).
       { unfold used_step. simpl. rewrite Hok. reflexivity. }
       rewrite Hu in Hs_post.
-      pose proof (Base_run sha pre [] init Base_init Hs_pre) as Hb. fold s in Hb. fold used1 in Hb.
+      pose proof (Base_run sha P pre [] init Base_init Hs_pre) as Hb. fold s in Hb. fold used1 in Hb.
       pose proof (b_h _ _ Hb) as Hh1.
-      assert (Hdr : 0 <= d < two64) by (unfold d; lia).
+      assert (Hdr : 0 <= d < two64) by (unfold d, two63, two64 in *; lia).
+      assert (Hiv : interval_ok (height s) n = true).
+      { unfold interval_ok. fold d. unfold d, two63 in *.
+        apply andb_true_intro. split; apply Z.ltb_lt; lia. }
       assert (Hor : q_oracle r0 = orc) by reflexivity.
       assert (Hcu : q_oracle r0 = true -> ctx_unused r0 pre /\ ctx_unused r0 post).
       { intros Ho. rewrite Hor in Ho. apply (proj1 (ctx_unused_app r0 pre post)). apply Hctx. exact Ho. }
       assert (HR1 : R r0 d (c :: used1) Pending s1).
-      { apply (track_start r0 d Hdr used1 s c n orc capok txh svc Hb Hs_req Hok eq_refl Hn eq_refl).
+      { apply (track_start P r0 d Hdr HP used1 s c n orc capok txh svc Hb Hs_req Hok eq_refl Hn eq_refl).
         intros Ho. destruct (Hcu Ho) as [Hcp _].
         assert (Hcf : CF r0 s).
-        { apply (CF_run sha r0 pre [] init Base_init Hs_pre Hcp).
+        { apply (CF_run sha P r0 pre [] init Base_init Hs_pre Hcp).
           split; intros ? ? []. }
         exact Hcf. }
       assert (Hb1 : Base (c :: used1) s1).
-      { pose proof (Base_step sha used1 s _ Hb Hs_req) as Hb1. rewrite Hu in Hb1.
-        unfold step_state in Hb1. rewrite exec_req, Hok in Hb1. exact Hb1. }
-      destruct (track_run sha r0 d Hdr post (c :: used1) s1 Pending Hb1 HR1 Hs_post
+      { pose proof (Base_step sha P used1 s _ Hb Hs_req) as Hb1. rewrite Hu in Hb1.
+        unfold step_state in Hb1. rewrite exec_req, Hok, Hiv in Hb1. exact Hb1. }
+      destruct (track_run sha P r0 d Hdr HP post (c :: used1) s1 Pending Hb1 HR1 Hs_post
                           (fun Ho => proj2 (Hcu Ho))) as [HR He].
       assert (Hrun : run sha init steps = run sha s1 post).
-      { unfold steps. rewrite run_app. fold s. simpl. unfold step_state. rewrite exec_req, Hok. reflexivity. }
+      { unfold steps. rewrite run_app. fold s. simpl. unfold step_state. rewrite exec_req, Hok, Hiv. reflexivity. }
       assert (Hused : used_after [] steps = used_after (c :: used1) post).
       { unfold steps. rewrite used_after_app. fold used1. simpl. rewrite Hok. reflexivity. }
       rewrite Hrun, Hused. split; [exact HR|].
       unfold steps. rewrite events_app. fold s. cbn [events].
-      unfold step_events at 1, step_state. rewrite exec_req, Hok. cbn [fst snd app].
+      unfold step_events at 1, step_state. rewrite exec_req, Hok, Hiv. cbn [fst snd app].
       change (enq s n (new_req s c txh orc svc)) with s1.
       rewrite filter_app, He.
       rewrite (filter_nil_all (is_i r0) (events sha init pre)); [reflexivity|].
@@ -1329,14 +1359,14 @@ Section Top.
           pending fin (req_id r0) = [] /\ query_random fin (req_id r0) = Some (txh, d, x)
           /\ mine = [mkEv (d + 1) t a (req_id r0) txh None x]
       end.
-    Proof.
+    Proof using All.
       intros Horc fin mine. destruct life_lemma as [HR He].
       assert (Hs_post : sane (c :: used_after [] pre) post).
       { unfold steps in Hsane. apply sane_app in Hsane. destruct Hsane as [_ Hs_rest].
         apply sane_cons in Hs_rest. destruct Hs_rest as [_ Hs_post].
         unfold used_step in Hs_post. simpl in Hs_post. rewrite Hok in Hs_post. exact Hs_post. }
       assert (Hor : q_oracle r0 = false) by exact Horc.
-      pose proof (spec_run_plain sha r0 d Hor post _ s1 Hs_post) as Hsp.
+      pose proof (spec_run_plain sha P r0 d Hor post _ s1 Hs_post) as Hsp.
       assert (Hle : height s1 <= d) by (unfold s1, d; simpl; lia).
       specialize (Hsp Hle). replace (d - height s1) with n in Hsp by (unfold s1, d; simpl; lia).
       destruct (R_view _ _ _ HR) as (Hp & Hq & _). fold fin in Hp, Hq. fold mine in He.
@@ -1353,19 +1383,19 @@ Section Top.
     let s := run sha init pre in
     let r0 := new_req s c txh orc svc in
     let rq := Req c n orc capok txh svc in
-    sane [] (pre ++ rq :: post ++ post') ->
-    req_ok c capok orc svc = true -> 0 <= n -> height s + n < two64 ->
+    sane [] (pre ++ rq :: post ++ post') -> P c = true ->
+    req_ok c capok orc svc = true -> 0 <= n -> height s + n < two63 ->
     (orc = true -> ctx_unused r0 (pre ++ post ++ post')) ->
     query_random (run sha init (pre ++ rq :: post)) (req_id r0) = Some v ->
     query_random (run sha init (pre ++ rq :: post ++ post')) (req_id r0) = Some v.
   Proof.
-    intros s r0 rq Hs Hok Hn Hd Hc Hq.
+    intros s r0 rq Hs HP Hok Hn Hd Hc Hq.
     assert (Hs1 : sane [] (pre ++ rq :: post)).
     { rewrite app_comm_cons, app_assoc in Hs. apply sane_app in Hs. tauto. }
     assert (Hc1 : orc = true -> ctx_unused r0 (pre ++ post)).
     { intros Ho. specialize (Hc Ho). rewrite app_assoc in Hc. apply ctx_unused_app in Hc. tauto. }
-    destruct (life_lemma pre post c n orc capok txh svc Hs1 Hok Hn Hd Hc1) as [HR1 _].
-    destruct (life_lemma pre (post ++ post') c n orc capok txh svc Hs Hok Hn Hd Hc) as [HR2 _].
+    destruct (life_lemma pre post c n orc capok txh svc Hs1 HP Hok Hn Hd Hc1) as [HR1 _].
+    destruct (life_lemma pre (post ++ post') c n orc capok txh svc Hs HP Hok Hn Hd Hc) as [HR2 _].
     apply R_view in HR1. destruct HR1 as (_ & Hq1 & _).
     apply R_view in HR2. destruct HR2 as (_ & Hq2 & _).
     fold s r0 rq in Hq1, Hq2. rewrite Hq1 in Hq. rewrite Hq2.
@@ -1379,12 +1409,12 @@ Section Top.
     let s := run sha init pre in
     let r0 := new_req s c txh orc svc in
     let steps := pre ++ Req c n orc capok txh svc :: post in
-    sane [] steps -> req_ok c capok orc svc = true -> 0 <= n -> height s + n < two64 ->
+    sane [] steps -> P c = true -> req_ok c capok orc svc = true -> 0 <= n -> height s + n < two63 ->
     (orc = true -> ctx_unused r0 (pre ++ post)) ->
     (length (filter (is_i r0) (events sha init steps)) <= 1)%nat.
   Proof.
-    intros s r0 steps Hs Hok Hn Hd Hc.
-    destruct (life_lemma pre post c n orc capok txh svc Hs Hok Hn Hd Hc) as [_ He].
+    intros s r0 steps Hs HP Hok Hn Hd Hc.
+    destruct (life_lemma pre post c n orc capok txh svc Hs HP Hok Hn Hd Hc) as [_ He].
     fold s r0 steps in He. rewrite He.
     destruct (spec_run sha r0 (height s + n) (enq s n r0) Pending post); simpl; lia.
   Qed.
@@ -1419,7 +1449,7 @@ Section Top.
     let r0 := new_req s c txh orc svc in
     let d := height s + n in
     let steps := pre ++ Req c n orc capok txh svc :: post in
-    sane [] steps -> req_ok c capok orc svc = true -> 0 <= n -> d < two64 ->
+    sane [] steps -> P c = true -> req_ok c capok orc svc = true -> 0 <= n -> d < two63 ->
     (orc = true -> ctx_unused r0 (pre ++ post)) ->
     let ph := spec_run sha r0 d (enq s n r0) Pending post in
     let fin := run sha init steps in
@@ -1431,8 +1461,8 @@ Section Top.
        end
     /\ filter (is_i r0) (events sha init steps) = match ph with Fulfilled ev => [ev] | _ => [] end.
   Proof.
-    intros s r0 d steps Hs Hok Hn Hd Hc ph fin.
-    destruct (life_lemma pre post c n orc capok txh svc Hs Hok Hn Hd Hc) as [HR He].
+    intros s r0 d steps Hs HP Hok Hn Hd Hc ph fin.
+    destruct (life_lemma pre post c n orc capok txh svc Hs HP Hok Hn Hd Hc) as [HR He].
     apply R_view in HR. destruct HR as (H1 & H2 & H3).
     fold s r0 d steps ph fin in H1, H2, H3, He.
     split; [exact H1|]. split; [exact H2|]. split; [exact H3|].
